@@ -74,7 +74,7 @@ Nets ==
         \* the same activation kind twice with different parameters (state carried from one layer to the next must not leak):
         \* leaky ReLU with slopes a1 then a2 (halves; 0 = plain ReLU) around a second linear layer, or twice in a row on neuron 0
         Leaky(r, a) == [k |-> "leaky", row |-> r, q |-> 2, alpha |-> a]
-        Slopes == {<<1, 4>>, <<4, 1>>, <<1, 0>>, <<0, 1>>}
+        Slopes == {<<1, 4>>, <<4, 1>>, <<1, 0>>, <<0, 1>>, <<-2, 1>>}          \* -2: slope -1 (|x| on the negative side)
         Twice == UNION {UNION {{[dim |-> fl[1], layers |-> <<fl[2], Leaky(0, sl[1]), CHOOSE x \in Lin22 : TRUE, Leaky(0, sl[2])>> \o hd, pre |-> [kind |-> "none"]]
                                   : hd \in {<<>>, <<[k |-> "argmax"]>>}}
                                 \cup {[dim |-> fl[1], layers |-> <<fl[2], Leaky(0, sl[1]), Leaky(0, sl[2])>>, pre |-> [kind |-> "none"]]}
